@@ -96,6 +96,13 @@ def event_reaches_update(run, rid):
            message='_circuit_update can return without calling update()')
     g = cfg_of(su)
     un = g.nodes_where(lambda n: any(is_method_call(a, 'update') for a in node_asts(n)))
+    # every STREAM line reaches its stream's update(), the one exception being the "no streams" marker of the snapshot
+    marker = set((t.id, 'T' if isinstance(t.ast.ops[0], ast.Eq) else 'F') for t in g.live if t.kind == 'test' and isinstance(t.ast, ast.Compare) and len(t.ast.ops) == 1
+                 and isinstance(t.ast.ops[0], (ast.Eq, ast.NotEq)) and const(t.ast.comparators[0]) == 'stream-status=')
+    r_ = g.reachable([g.entry], avoid=lambda n: n in un, skip_edges=marker, follow_exc=False)
+    run.ob(rid, su, su.node, 'every STREAM line updates its stream', bool(un) and not any(e in r_ for e in g.normal_exits()), slot='update:stream-always',
+           message='_stream_update can return without calling update() for a real event line (e.g. a CLOSED for an id it decided to ignore): '
+                   'a stream that re-uses that id stays listed after Tor closed it')
     for m in mk:
         esc = g.escapes(m, lambda n: n in un, exits=g.normal_exits())
         run.ob(rid, su, su.node, 'a newly created stream is updated from the event', not esc, slot='update:stream', message='_stream_update creates a stream without update()')
@@ -380,6 +387,20 @@ def r07_2(run):
 
 
 def target_learning(run, rid, states=TARGET_STATES):
+    # a REMAP always carries the stream's new target address: it is taken over on every path of that leg (latest wins)
+    su0 = run.idx.find_method(stream_cls(run), 'update')
+    gs0 = cfg_of(su0)
+    rt = [t for t in gs0.live if t.kind == 'test' and isinstance(t.ast, ast.Compare) and dotted(t.ast.left) == 'self.state' and const(t.ast.comparators[0]) == 'REMAP'
+          and isinstance(t.ast.ops[0], ast.Eq)]
+    run.floor('R07.4', 'REMAP tests in Stream.update', len(rt), 1)
+    for t in rt:
+        ws = [n for n in gs0.real_nodes() if n.kind == 'stmt' and assign_to(n.ast, 'self.target_addr') is not None and gs0.edge_dominates(t, 'T', n)]
+        leg_end = [n for n in gs0.real_nodes() if not gs0.edge_dominates(t, 'T', n)]
+        r_ = gs0.reachable([s_ for lab, s_ in t.succ if lab == 'T'], avoid=lambda n: n in ws, follow_exc=False)
+        escaped = [n for n in r_ if n in leg_end or n in gs0.normal_exits()]
+        run.ob('R07.4', su0, t.ast, 'a REMAP event always replaces target_addr', bool(ws) and not escaped, slot='remap-target',
+               message='Stream.update[REMAP] can leave target_addr as it was (assignment missing or conditional): after a remap to a name / IPv6 literal the stream '
+                       'still shows its previous address')
     # a stream learns its target from the first event that can carry it (instances confirmed on
     # today's tree: NEW, NEWRESOLVE, SUCCEEDED - the latter for streams first seen in a snapshot)
     su = run.idx.find_method(stream_cls(run), 'update')
@@ -493,6 +514,8 @@ RULES.insert(2, ('R07.3', 'after CLOSED/FAILED/DETACHED the stream is under no c
 from ..selftest import M  # noqa: E402
 FS, FT, FC = 'txtorcon/stream.py', 'txtorcon/torstate.py', 'txtorcon/circuit.py'
 MUTANTS = [
+    M('remap-only-ips', 'txtorcon/stream.py', "            self.target_addr = maybe_ip_addr(args[3][:args[3].rfind(':')])", "            addr_ = maybe_ip_addr(args[3][:args[3].rfind(':')])\n            if not isinstance(addr_, str):\n                self.target_addr = addr_", ['R07.4']),
+    M('closed-after-failed-swallowed', 'txtorcon/torstate.py', "        stream_id = int(args[0])\n        wasnew = False\n        if stream_id not in self.streams:", "        stream_id = int(args[0])\n        if args[1] == 'CLOSED' and stream_id in getattr(self, '_failed', ()):\n            return\n        wasnew = False\n        if stream_id not in self.streams:", ['R07.1']),
     M('stream-snapshot-not-loaded', 'txtorcon/torstate.py', "        ss = yield self.protocol.get_info_raw('stream-status')\n        self._stream_status(ss)\n", "        ss = yield self.protocol.get_info_raw('stream-status')\n", ['R07.6']),
     M('attach-only-for-listed-states', 'txtorcon/stream.py', "        if self.state not in ['CLOSED', 'FAILED', 'DETACHED']:\n            cid = int(args[2])", "        if self.state in ['SENTCONNECT', 'REMAP', 'SUCCEEDED']:\n            cid = int(args[2])", ['R07.2']),
     M('purpose-first-wins', 'txtorcon/circuit.py', "        if 'PURPOSE' in kw:", "        if self.purpose is None and 'PURPOSE' in kw:", ['R07.4']),
